@@ -58,6 +58,7 @@ type Input struct {
 	TagKV   [][2]string   `json:"tagkv,omitempty"` // structured tags (used instead of Tags when present)
 	Slot    int           `json:"slot"`           // which 10 s window
 	UseCT   bool          `json:"use_ct"`         // select trie/tree by Content-Type instead of format=
+	RawQuery []byte       `json:"rawq,omitempty"` // arbitrary raw query string for url.ParseQuery (raw class)
 	Raw     []byte        `json:"raw,omitempty"`  // arbitrary body for the two text parsers only
 	Class   string        `json:"class"`
 }
@@ -74,6 +75,7 @@ type env struct {
 	dir2    *direct.Direct
 	mu      sync.Mutex
 	lastQ   url.Values
+	lastRaw string
 	lastCT  string
 	counter int
 }
@@ -106,6 +108,7 @@ func setup() *env {
 	e.handler = http.HandlerFunc(func(w http.ResponseWriter, r *http.Request) {
 		e.mu.Lock()
 		e.lastQ = r.URL.Query()
+		e.lastRaw = r.URL.RawQuery
 		e.lastCT = r.Header.Get("Content-Type")
 		e.mu.Unlock()
 		mux.ServeHTTP(w, r)
@@ -190,6 +193,7 @@ func gen(r *rand.Rand, idx int, tier string) Input {
 	if lib.Chance(r, 0.12) {
 		in.Class = "raw"
 		in.Raw = randRaw(r)
+		in.RawQuery = randQuery(r)
 		return in
 	}
 	n := lib.Range(r, 1, 7)
@@ -321,6 +325,44 @@ func gen(r *rand.Rand, idx int, tier string) Input {
 	}
 	in.UseCT = lib.Chance(r, 0.3)
 	return in
+}
+
+// randQuery: raw query strings with well-formed and malformed escapes, '+', ';', empty pieces, repeated keys
+func randQuery(r *rand.Rand) []byte {
+	atoms := []string{"a", "name", "x%41", "%4a%4B", "%zz", "%4", "%", "a+b", "c%2Bd", "%26", "%3d", "%3B", ";", "k;v", "é", "%C3%A9", "%c3%a9",
+		"", "~-_.", "%%", "%25", "100%25", "=", "%00", " ", "%20", "%G1", "%1G", "sp ace"}
+	var b []byte
+	n := lib.Range(r, 0, 6)
+	for i := 0; i < n; i++ {
+		if i > 0 {
+			b = append(b, '&')
+			if lib.Chance(r, 0.1) {
+				b = append(b, '&')
+			}
+		}
+		b = append(b, lib.Pick(r, atoms)...)
+		switch r.Intn(4) {
+		case 0: // no '='
+		case 1:
+			b = append(b, '=')
+		default:
+			b = append(b, '=')
+			b = append(b, lib.Pick(r, atoms)...)
+			if lib.Chance(r, 0.15) {
+				b = append(b, '=')
+				b = append(b, lib.Pick(r, atoms)...)
+			}
+		}
+	}
+	return b
+}
+
+func hostileQueryCoq(raw []byte) string {
+	if raw == nil {
+		return "None"
+	}
+	vals, _ := url.ParseQuery(string(raw)) // r.URL.Query() drops the error in the same way
+	return lib.Some(lib.Pair(lib.Bytes(raw), coqQuery(vals)))
 }
 
 func randRaw(r *rand.Rand) []byte {
@@ -513,7 +555,7 @@ func run(in Input) (res lib.Result) {
 		coq := "{| c_ms := " + lib.List(msItems) + "; c_text_ok := false; c_meta := None; c_groups := None; c_lines := None; c_trie := None; c_tree := None; " +
 			"c_job := None; c_job_ns := None; c_remote_slots := []; c_direct_slots := []; c_series := None; c_remote := None; c_direct := None; c_go_groups := None; c_go_lines := None; c_raw := " +
 			lib.Some("("+cbytes(in.Raw)+", "+parseGroupsGo(in.Raw)+", "+parseLinesGo(in.Raw)+")") +
-			"; c_raw_groups := " + rg + "; c_raw_lines := " + rl + " |}"
+			"; c_remote_rawq := None; c_hostile_q := " + hostileQueryCoq(in.RawQuery) + "; c_raw_groups := " + rg + "; c_raw_lines := " + rl + " |}"
 		return lib.Result{Coq: coq, NonTrivial: false, Feat: map[string]interface{}{"class": "raw", "raw_len": len(in.Raw), "raw_with_intent": len(in.MS) > 0}}
 	}
 	e.counter++
@@ -619,7 +661,7 @@ func run(in Input) (res lib.Result) {
 		rec := httptest.NewRecorder()
 		e.handler.ServeHTTP(rec, req)
 		body := bodies[f]
-		sentCoq[f] = lib.Some("{| sn_query := " + coqQuery(q) + "; sn_ctype := " + lib.Bytes([]byte(ct)) +
+		sentCoq[f] = lib.Some("{| sn_query := " + coqQuery(q) + "; sn_rawq := " + lib.Bytes([]byte(req.URL.RawQuery)) + "; sn_ctype := " + lib.Bytes([]byte(ct)) +
 			"; sn_body := " + lib.Bytes(body) + "; sn_stored := " + e.readBack(name, st, et, rec.Code) + " |}")
 	}
 
@@ -643,6 +685,7 @@ func run(in Input) (res lib.Result) {
 		}
 		return lib.List(items)
 	}
+	remoteRawq := none
 	jobCoq, remoteCoq, directCoq, seriesCoq := none, none, none, none
 	if len(in.TagKV) > 0 || in.Tags == "" {
 		items := make([]string, len(in.TagKV))
@@ -668,6 +711,7 @@ func run(in Input) (res lib.Result) {
 				}
 				e.mu.Lock()
 				q, ct := e.lastQ, e.lastCT
+				remoteRawq = lib.Some(lib.Bytes([]byte(e.lastRaw)))
 				e.mu.Unlock()
 				// the name differs per upload path; the job record carries the remote one
 				jobCoq = lib.Some("{| j_name := " + lib.Bytes([]byte(name)) + "; j_start := " + lib.N(uint64(jst.Unix())) +
@@ -717,7 +761,7 @@ func run(in Input) (res lib.Result) {
 	coq := "{| c_ms := " + treeu.CoqStacks(in.MS) + "; c_text_ok := " + lib.Bool(textok) + "; c_meta := " + metaCoq +
 		"; c_groups := " + sentCoq["groups"] + "; c_lines := " + sentCoq["lines"] + "; c_trie := " + sentCoq["trie"] +
 		"; c_tree := " + sentCoq["tree"] + "; c_job := " + jobCoq + "; c_job_ns := " + jobNs + "; c_remote_slots := " + remoteSlots + "; c_direct_slots := " + directSlots + "; c_series := " + seriesCoq + "; c_remote := " + remoteCoq + "; c_direct := " + directCoq +
-		"; c_go_groups := " + goGroups + "; c_go_lines := " + goLines + "; c_raw := None; c_raw_groups := None; c_raw_lines := None |}"
+		"; c_go_groups := " + goGroups + "; c_go_lines := " + goLines + "; c_raw := None; c_remote_rawq := " + remoteRawq + "; c_hostile_q := None; c_raw_groups := None; c_raw_lines := None |}"
 
 	// features: prefix structure
 	nonBoundary, prefixOf, repeats := false, false, false
